@@ -82,7 +82,7 @@ class P:
         # and at the line break after && || |; the model says what the scanner makes of it (joins / separates / ends the line /
         # continues the command, and which comments), the implementation must parse the text like the canonical rendering
         import itertools
-        alpha = [" ", "\t", "\\\n", "#c", "# d e", "\n", "#"]
+        alpha = [" ", "\t", "\\\n", "#c", "# d e", "\n", "#", "#x\\"]
         L = 4 if tier == "quick" else 5
         texts = ["".join(t) for n_ in range(0, L + 1) for t in itertools.product(alpha, repeat=n_)]
         gcases = []
